@@ -5829,6 +5829,10 @@ class CodegenCtx:
             ctx = IntegerExprUseContext.ASSIGN_INITIAL
         elif is_end:
             ctx = IntegerExprUseContext.ASSIGN_ON_END
+        if isinstance(action, FinishAction) and early_advanced:
+            # the input was already advanced for a later action that may return early, but DONE and the finish codes
+            # leave the start pointer on the last character read
+            result.add("--(*start);" if ProgramData.do(ProgramFlag.INDIRECT_START_PTR) else "--start;")
         if isinstance(action, CustomFinishAction):
             result.add(f"return {self.program_name.upper()}_FINISH_{action.result_code};")
         elif isinstance(action, FinishAction):
